@@ -197,6 +197,24 @@ def worker(case, led):
                         refb.append(entropy(s ** 2))
                     led.check(len(eb) == n - 1 and np.abs(eb - np.array(refb)).max() <= 1e-8, "post:Mps.calc_bond_entropy:dense_schmidt_spectrum", "Mps.calc_bond_entropy",
                               f"{eb} vs {refb}", key + ("sb",), fields, rep)
+                    # the Schmidt values do not depend on the compression rule the state happens to carry, and measuring leaves that rule alone
+                    from renormalizer.utils import CompressConfig, CompressCriteria
+                    for ci, cfg in enumerate((CompressConfig(CompressCriteria.fixed, max_bonddim=1), CompressConfig(CompressCriteria.threshold, threshold=0.3),
+                                              CompressConfig(CompressCriteria.both, threshold=0.2, max_bonddim=2))):
+                        ac = an.copy()
+                        ac.compress_config = cfg
+                        sv = ac.calc_bond_singular_values()
+                        oks = len(sv) == n - 1
+                        for bnd in range(1, n):
+                            ref = np.linalg.svd(vn.reshape(int(np.prod(dims[:bnd])), -1), compute_uv=False)
+                            got = np.sort(np.asarray(sv[bnd - 1]))[::-1] if oks else np.zeros(0)
+                            m_ = max(len(ref), len(got))
+                            oks = oks and np.abs(np.pad(got, (0, m_ - len(got))) - np.pad(ref, (0, m_ - len(ref)))).max() <= 1e-9
+                        led.check(oks, "post:Mps.calc_bond_singular_values:dense_schmidt_values_whatever_the_carried_rule", "Mps.calc_bond_singular_values",
+                                  f"state carrying rule #{ci} ({cfg.criteria}): singular values differ from the dense Schmidt values",
+                                  key + ("svcfg", ci), dict(fields, carried_rule=str(cfg.criteria)), dict(rep, carried_rule=str(cfg.criteria)))
+                        led.check(ac.compress_config is cfg and np.abs(S.dense(ac) - vn).max() <= 1e-12, "frame:Mps.calc_bond_singular_values:state_and_rule_unchanged",
+                                  "Mps.calc_bond_singular_values", "measuring changed the state or its compression rule", key + ("svcfgframe", ci), fields, rep)
                     okm = True
                     for i in range(n):
                         for j in range(i + 1, n):
@@ -226,6 +244,90 @@ def worker(case, led):
                           f"{fast} vs {dn}", (name, n, str(q), cplx, "mpdm-list"), {"complex_state": cplx}, {"model": name, "nsites": n, "sector": q, "seed": seed})
             except Exception as e:
                 led.check(False, "post:MpDm.expectation:total", "MpDm._expectation_path", f"raised {type(e).__name__}: {e}", (name, n, str(q), cplx, "mpdm"), {}, {})
+            # ---- density-operator form: RDMs and entropies of rho = A A^+ (physical legs kept, ancilla legs traced); A is made asymmetric under
+            #      physical <-> ancilla by operators acting from the physical side only
+            try:
+                mpdm_observables(led, name, n, seed, q, cplx, psi, H, mpos, dims, rng)
+            except Exception as e:
+                led.check(False, "post:MpDm.calc_rdm:total", "Mps.calc_1site_rdm", f"raised {type(e).__name__}: {e}", (name, n, str(q), cplx, "mpdm-rdm"), {}, {})
+
+
+def rdm_ref_dm(Ad, dims, sites):
+    """Tr_{other physical sites, all ancillas} A A^+ from the dense operator A[(p_1..p_n), (a_1..a_n)]"""
+    k = len(sites)
+    m = np.moveaxis(Ad.reshape(list(dims) + list(dims)), sites, list(range(k))).reshape(int(np.prod([dims[s] for s in sites])), -1)
+    return m @ m.conj().T
+
+
+def mpdm_observables(led, name, n, seed, q, cplx, psi, H, mpos, dims, rng):
+    from renormalizer.mps import MpDm
+    A = H.apply(MpDm.from_mps(psi))
+    for kick in range(2):
+        if kick:
+            A = mpos[int(rng.integers(len(mpos)))].apply(A)     # product operator (flips / diagonals): not Hermitian in general
+            if cplx:
+                A = A.scale(0.6 + 0.8j)
+        for gauge in ("fresh", "cano"):
+            a = A.copy()
+            if gauge == "cano":
+                a.canonicalise()
+            a.coeff = 1
+            Ad = S.dense(a)
+            if np.abs(Ad).max() < 1e-10:
+                continue
+            key = (name, n, str(q), cplx, "mpdm-rdm", kick, gauge)
+            rep = {"model": name, "nsites": n, "sector": q, "complex": cplx, "gauge": gauge, "seed": seed, "state": "H.apply(MpDm.from_mps(psi))" + (" then a product operator" if kick else "")}
+            fields = {"complex_state": cplx, "density_operator": True}
+            asym = float(np.abs(Ad - Ad.T).max())
+            r1 = a.calc_1site_rdm()
+            for i in range(n):
+                ref = rdm_ref_dm(Ad, dims, [i])
+                got = np.asarray(r1[i])
+                rel = "equal" if got.shape == ref.shape and np.abs(got - ref).max() <= TOL * max(1, np.abs(ref).max()) else (
+                    "result == conj(rho)" if got.shape == ref.shape and np.abs(got - ref.conj()).max() <= TOL * max(1, np.abs(ref).max()) else "other")
+                led.check(rel == "equal", "post:MpDm.calc_1site_rdm:partial_trace_of_A_Adagger", "Mps.calc_1site_rdm",
+                          f"site {i}: differs from Tr_rest,ancilla A A^+ ({rel})", key + ("rdm1", i), dict(fields, relation=rel), dict(rep, site=i), nontrivial=asym > 1e-6)
+            sub = int(rng.integers(n))
+            one = a.calc_1site_rdm(sub)
+            led.check(set(one.keys()) == {sub} and np.abs(np.asarray(one[sub]) - np.asarray(r1[sub])).max() <= 1e-12 * max(1, np.abs(r1[sub]).max()),
+                      "post:Mps.calc_1site_rdm:index_selection", "Mps.calc_1site_rdm", f"idx={sub}: keys {sorted(one.keys())}", key + ("rdm1idx",), fields, rep)
+            if n >= 2:
+                r2 = a.calc_2site_rdm()
+                for (i, j) in r2:
+                    ref = rdm_ref_dm(Ad, dims, [i, j])
+                    got = np.asarray(r2[(i, j)]).reshape(ref.shape)
+                    ok = np.abs(got - ref).max() <= TOL * max(1, np.abs(ref).max())
+                    led.check(ok, "post:MpDm.calc_2site_rdm:partial_trace_of_A_Adagger", "Mps.calc_2site_rdm", f"sites {(i, j)}: differs from the partial trace of A A^+",
+                              key + ("rdm2", i, j), fields, dict(rep, sites=[i, j]), nontrivial=asym > 1e-6)
+                nrm = np.linalg.norm(Ad)
+                an = a.scale(1.0 / nrm)
+                An = Ad / nrm
+                e1 = an.calc_entropy("1site")
+                ok1 = all(abs(e1[i] - entropy(np.linalg.eigvalsh(rdm_ref_dm(An, dims, [i])))) <= 1e-8 for i in range(n))
+                led.check(ok1, "post:MpDm.calc_entropy:1site", "Mps.calc_entropy", f"{e1}", key + ("s1",), fields, rep, nontrivial=asym > 1e-6)
+                em = np.asarray(an.calc_entropy("mutual"))
+                okm = True
+                for i in range(n):
+                    for j in range(i + 1, n):
+                        si = entropy(np.linalg.eigvalsh(rdm_ref_dm(An, dims, [i])))
+                        sj = entropy(np.linalg.eigvalsh(rdm_ref_dm(An, dims, [j])))
+                        sij = entropy(np.linalg.eigvalsh(rdm_ref_dm(An, dims, [i, j])))
+                        okm = okm and abs(em[i, j] - (si + sj - sij) / 2) <= 1e-7 and abs(em[j, i] - em[i, j]) <= 1e-12
+                led.check(okm, "post:MpDm.calc_2site_mutual_entropy:definition", "Mps.calc_2site_mutual_entropy", "mutual entropy of a density operator differs", key + ("sm",),
+                          fields, rep, nontrivial=asym > 1e-6)
+                # bond entropy: Schmidt spectrum of the purification between sites [0, b) and [b, n) (physical and ancilla legs of a site stay together)
+                T = An.reshape(list(dims) + list(dims))
+                perm = [x for i in range(n) for x in (i, n + i)]
+                T = T.transpose(perm)
+                eb = np.asarray(an.calc_entropy("bond"))
+                refb = []
+                for bnd in range(1, n):
+                    sv = np.linalg.svd(T.reshape(int(np.prod(dims[:bnd])) ** 2, -1), compute_uv=False)
+                    refb.append(entropy(sv ** 2))
+                led.check(len(eb) == n - 1 and np.abs(eb - np.array(refb)).max() <= 1e-8, "post:MpDm.calc_bond_entropy:dense_schmidt_spectrum", "Mps.calc_bond_entropy",
+                          f"{eb} vs {refb}", key + ("sb",), fields, rep)
+                led.check(np.abs(S.dense(an) - An).max() <= 1e-12, "frame:Mps.calc_entropy:state_unchanged", "Mps.calc_entropy", "measuring changed the density operator",
+                          key + ("frame",), fields, rep)
 
 
 def check(run):
